@@ -930,6 +930,8 @@ func (g *Gen) arrayTrailingComma(n *ast.ExprArray) {
 
 // listTarget draws a destructuring target: list(...) or, under PHP 7, [...].
 func (g *Gen) listTarget(level int) *ast.ExprList {
+	inForeach := g.listInForeach
+	g.listInForeach = false // applies to this list only, not to lists inside its targets' expressions
 	g.feat("list")
 	n := &ast.ExprList{}
 	short := g.O.PHP7 && !g.O.Common && g.flip("shortlist")
@@ -939,6 +941,13 @@ func (g *Gen) listTarget(level int) *ast.ExprList {
 	} else {
 		n.ListTkn = g.kw(token.T_LIST, "list")
 		n.OpenBracketTkn, n.CloseBracketTkn = g.ch('('), g.ch(')')
+	}
+	if !g.O.PHP7 && !g.O.Common && (level > 0 || inForeach) && g.chance(1, 8, "emptylist") {
+		// PHP 5 allows a list() without any target (PHP 7 made it a compile error). As a foreach
+		// target and as a nested list this parser gives it no items; in a plain assignment it keeps
+		// one empty slot, so that position is left alone
+		g.feat("php5-empty-list")
+		return n
 	}
 	k := g.rng(1, 3, "listitems")
 	keyed := g.O.PHP7 && !g.O.Common && g.chance(1, 4, "keyedlist")
